@@ -25,6 +25,11 @@ EXPLANATION = (
 )
 
 SQL_DIALECTS = [("SQLite", "SQLiteModel"), ("PostgreSQL", "PostgreSQLModel")]
+# formatter functions that use a caveated form on purpose (function name -> forms), with the reason next to it
+FORM_EXEMPT = {
+    "_db_maximum_expr": {("SQLiteModel", "MAX", 2)}, "_db_minimum_expr": {("SQLiteModel", "MAX", 2)},  # decided by the truth tables of S2
+    "_db_fmax_expr": {("SQLiteModel", "MAX", 2)}, "_db_fmin_expr": {("SQLiteModel", "MAX", 2)},
+}
 
 
 def sqlite_registered(program) -> Dict[str, str]:
@@ -91,6 +96,26 @@ def _template_vocab_problems(fn, dialect, vocab):
                 continue
             if name.lower() not in vocab:
                 out.append((name, f"{name}(...) is neither a built-in of {dialect.name} nor registered for it", text))
+                continue
+            # argument count of this call in the template (placeholders are single arguments)
+            depth, nargs, i, seen_any = 0, 0, m.end(), False
+            while i < len(lit):
+                ch = lit[i]
+                if ch == "(":
+                    depth += 1
+                elif ch == ")":
+                    if depth == 0:
+                        break
+                    depth -= 1
+                elif ch == "," and depth == 0:
+                    nargs += 1
+                elif not ch.isspace():
+                    seen_any = True
+                i += 1
+            nargs = nargs + 1 if seen_any else 0
+            why = facts.SQL_FUNCTION_FORM_CAVEATS.get((dialect.name, name.upper(), nargs))
+            if why is not None and (dialect.name, name.upper(), nargs) not in FORM_EXEMPT.get(getattr(fn, "name", ""), set()):
+                out.append((f"{name.upper()}/{nargs}", why, text))
         if types is not None:
             for m in re.finditer(r"\bAS\s+([A-Za-z][A-Za-z0-9 ]*?)\s*\)", lit):
                 ty = m.group(1).strip().upper()
